@@ -43,6 +43,7 @@ namespace bxdecay0 {
 
   void Xe130low(i_random & prng_, event & event_, const int levelkev_)
   {
+    BXDECAY0_VERIF_SCOPE("scheme:Xe130low", levelkev_);
     // double t;
     double tdlev;
     double p;
